@@ -262,7 +262,7 @@ def failing_trims(c, r):
 def shrink(c, r):
     """Smallest failing trim, then greedily smaller canvases / images that still fail."""
     best, best_r = c, r
-    for _ in range(12):
+    for _ in range(6):
         fails, _s = failing_trims(best, best_r)
         specf = [k for k, m, sp in fails if not sp]
         if not specf:
@@ -344,6 +344,7 @@ def run(ctx):
             "padded": {"h": 0, "v": 0, "none": 0}, "exhaustive_canvases": 0, "sampled_canvases": 0,
             "trims": 0, "default_args": 0, "cut": {}}
     distinct = set()
+    n_shrunk = 0
     for ci, (c, (code, why, r)) in enumerate(zip(cases, res)):
         hist["style"][c["style"]] = hist["style"].get(c["style"], 0) + 1
         sk = "flow" if len(c["size"]) == 1 else "box"
@@ -366,7 +367,8 @@ def run(ctx):
             hist["padded"]["none"] += (W == w and H == h)
             classify(c, r, hist, distinct, ci)
         if code & 2:
-            if "size" in r and not why and not ctx.replay:
+            if "size" in r and not why and not ctx.replay and n_shrunk < 2:
+                n_shrunk += 1
                 sc, trim = shrink(c, r)
             else:
                 sc, trim = c, None
